@@ -198,6 +198,8 @@ package casket
 //@   at call dynamic#2 do nShut = nShut + 1
 //@   at call startWithListenerFds assert [restart_callbacks_first] nRestart == len(i.OnRestart) && nStop == 0 && nShut == 0
 //@   at call (*Instance).Stop assert [old_stops_after_new_started] nStart == 1 && nShut == 0
+//@   at call startWithListenerFds before [successor_shares_the_wait_group_of_its_lineage] arg1 != nil && arg1.wg == i.wg
+//@   ensures [successor_returned_shares_the_wait_group] err == nil ==> inst.wg == i.wg
 //@   ensures [failure_keeps_old_instance] err != nil ==> inst == i
 //@   ensures [failed_callbacks_iff_failure] (err != nil ==> nFailed == len(i.OnRestartFailed)) && (err == nil ==> nFailed == 0)
 //@   ensures [nothing_of_old_stopped_before_new_runs] nStart == 0 ==> (nStop == 0 && nShut == 0)
